@@ -187,14 +187,19 @@ def family(ctx):
         return
     nbad, variant = U.settle(ctx, FAM, "rules", meta, di, df, _defect)
     ok2, vals, raw2 = ctx.coq_eval(["OV.Rules.HardSwish"], "From Coq Require Import QArith.\n"
-                                   f"Definition fcases : list fs_case := {clist(fs_cases)}.\nEval vm_compute in (fs_dis fcases).")
+                                   f"Definition fcases : list fs_case := {clist(fs_cases)}.\nEval vm_compute in (fs_dis false fcases).\n"
+                                   "Eval vm_compute in (fs_dis true fcases).")
     from harness import common
-    bad_fs = common.parse_nat_list(vals[0]) if ok2 and vals else None
-    if bad_fs is None:
+    if not ok2 or len(vals) < 2:
         ctx.tie_broken("correspondence", f"{FAM}:from_sigmoid:model-evaluation", raw2[-800:])
         bad_fs = []
+    else:
+        # two modelled variants: as read (numpy.isclose) and repaired (alpha = float32(1/6), beta = 1/2 exactly); all cases must follow one
+        d_impl, d_fixed = common.parse_nat_list(vals[0]), common.parse_nat_list(vals[1])
+        bad_fs = d_impl if len(d_impl) <= len(d_fixed) else d_fixed
+        variant["from_sigmoid"] = "impl" if not d_impl else ("fixed" if not d_fixed else "neither")
     for j in bad_fs[:5]:
-        ctx.tie_broken("correspondence", f"{FAM}:from_sigmoid", f"{fs_meta[j]}: fired? differs from HardSwish.from_sigmoid_check")
+        ctx.tie_broken("correspondence", f"{FAM}:from_sigmoid", f"{fs_meta[j]}: fired? differs from HardSwish.from_sigmoid_check and from from_sigmoid_check_exact")
     ctx.sample({"family": FAM, "instance": meta[len(meta) // 2]})
     ctx.cover(hardswish_instances=n_inst, hardswish_fired=int(fired), hardswish_variant=variant, hardswish_from_sigmoid_cases=len(fs_cases),
               c05b_oracle_stats=dict(U.STATS))
